@@ -668,7 +668,10 @@ func parseModLoc(s, file string, line int) *ModLoc {
 }
 
 // splitConj splits a clause into independently provable parts:
-// A && B, A ==> (B && C), forall x :: A ==> (B && C).
+// A && B, A ==> (B && C), forall x :: A ==> (B && C); non-opaque pure
+// predicates are unfolded when their body is a conjunction.
+var splitPures map[string]*PureFn
+
 func splitConj(x *SExpr) []*SExpr {
 	switch {
 	case x.Op == "bin" && x.Name == "&&":
@@ -685,6 +688,47 @@ func splitConj(x *SExpr) []*SExpr {
 			out = append(out, &SExpr{Op: "forall", Binders: x.Binders, Args: []*SExpr{r}})
 		}
 		return out
+	case x.Op == "call":
+		if pf, ok := splitPures[x.Name]; ok && pf.Body != nil && !pf.Opaque && pf.Bool && len(x.Args) == len(pf.Params) {
+			m := map[string]*SExpr{}
+			for i, p := range pf.Params {
+				m[p] = x.Args[i]
+			}
+			body := substSpec(pf.Body, m, nil)
+			parts := splitConj(body)
+			if len(parts) > 1 {
+				return parts
+			}
+		}
 	}
 	return []*SExpr{x}
+}
+
+func substSpec(x *SExpr, m map[string]*SExpr, bound map[string]bool) *SExpr {
+	if x == nil {
+		return nil
+	}
+	switch x.Op {
+	case "ident":
+		if r, ok := m[x.Name]; ok && !bound[x.Name] {
+			return r
+		}
+		return x
+	case "num":
+		return x
+	case "forall", "exists":
+		nb := map[string]bool{}
+		for k := range bound {
+			nb[k] = true
+		}
+		for _, b := range x.Binders {
+			nb[b] = true
+		}
+		return &SExpr{Op: x.Op, Binders: x.Binders, Args: []*SExpr{substSpec(x.Args[0], m, nb)}}
+	}
+	out := &SExpr{Op: x.Op, Name: x.Name, Num: x.Num, Binders: x.Binders}
+	for _, a := range x.Args {
+		out.Args = append(out.Args, substSpec(a, m, bound))
+	}
+	return out
 }
